@@ -312,7 +312,9 @@ def py_spec(c, o):
             continue
         wc = e['wc']
         if r['txt_exists'] != wc['text'] or r['ts_count'] != (1 if wc['timestamped_text'] else 0) or r['lprof_exists'] != wc['lprof']:
-            why.append('explicit profiler wrote files %r for write_config %r' % (r, wc))
+            why.append('explicit profiler wrote files %r for write_config %r%s' % (r, wc, ' under LC_ALL=C PYTHONUTF8=0' if c.get('ascii_locale') else ''))
+        elif r.get('atexit_stderr'):
+            why.append('explicit profiler: error on stderr while writing its outputs: %s' % r['atexit_stderr'][-200:])
         if not wc['stdout'] and not r.get('stdout_silent', True):
             why.append('explicit profiler printed a report although write_config[stdout] is off')
     if c['kind'] == 'kernprof':
@@ -470,6 +472,23 @@ def gen_cases(tier, rnd):
         bits = [15, 10, 5][i] if i < 3 else (i % 16)
         e = mk_explicit(bits, rand_sc(rnd, default=(i % 2 == 0)), prefix='x%d' % i)
         cases.append(dict(kind='explicit', files=files, calls=calls, explicit=[e],
+                          viewer=[mk_viewer(rnd, sub=True, fixed=dict(u=None, z=True, r=False, t=True, m=True))]))
+    # the same under a non-UTF-8 preferred encoding: ASCII file name (argv must survive the C locale), non-ASCII
+    # function names and source text in the report; every write_config subset that writes a text file comes up
+    n_loc = 3 if not thorough else 24
+    loc_bits = [15, 6, 3, 7, 10, 11, 14, 2, 4, 5, 12, 13]
+    for i in range(n_loc):
+        names = rnd.sample(FUNCS_UNI, 2)
+        files = [dict(fname=rnd.choice(FNAMES_ASCII), funcs=[
+            dict(name=names[0], k=1, extra='caf\u00e9 \u2603 comment', profiled=True),
+            dict(name=rnd.choice([names[1]] + FUNCS_ASCII), k=2, extra=rnd.choice([None, '\u03b1\u03b2\u03b3']), profiled=True)])]
+        calls = [(0, files[0]['funcs'][0]['name'], rnd.choice([1, 7, 300]))]
+        if rnd.random() < 0.6:
+            calls.append((0, files[0]['funcs'][1]['name'], rnd.choice([0, 2, 50])))
+        sc = rand_sc(rnd, default=(i % 2 == 0))
+        sc['rich'] = 0
+        e = mk_explicit(loc_bits[i % len(loc_bits)], sc, prefix='loc%d' % i)
+        cases.append(dict(kind='explicit', ascii_locale=True, files=files, calls=calls, explicit=[e],
                           viewer=[mk_viewer(rnd, sub=True, fixed=dict(u=None, z=True, r=False, t=True, m=True))]))
     return cases
 
@@ -631,6 +650,7 @@ def run(tier, seed):
         case_kinds=kinds, channel_kinds=hist, write_config_subsets_seen=len(wc_seen),
         exhaustive='all 16 write_config subsets in at least two sessions per run',
         max_hits=maxhits, max_time=maxtime, cases_with_non_ascii_names=nonascii,
+        explicit_sessions_under_ascii_locale=sum(1 for c in cases if c.get('ascii_locale')),
         roundtrips_checked=sum(len(o.get('loaded', [])) for o in outs),
         hypothesis_load_dump_measured_on=sum(len(o.get('loaded', [])) for o in outs),
         hypothesis_parse_render_measured_on=n_obs,
